@@ -315,18 +315,14 @@ Definition direct_child (cfg d : bytes) : bool :=
   | Some name => negb (has_sep name) && negb (match name with [] => true | _ => false end)
   | None => false
   end.
-(* entries not present before: at most ONE, and it is a direct child of the configured directory
-   (nothing visible inside it, nothing anywhere else, e.g. under TMPDIR when a directory was configured) *)
+(* entries not present before: every one of them lives UNDER the configured directory (the sorter's own directory and
+   whatever it keeps inside it, at any depth; how many entries, their names and their nesting are not specified by the
+   property), nothing anywhere else, e.g. under TMPDIR when a directory was configured *)
+Definition under_cfg (cfg p : bytes) : bool := match strip_prefix (cfg ++ [47]) p with Some _ => true | None => false end.
 Definition during_ok' (cfg : bytes) (before l : list bytes) : bool :=
-  subset_b before l &&
-  match new_entries before l with
-  | [] => true
-  | [d] => direct_child cfg d
-  | _ => false
-  end.
+  subset_b before l && forallb (under_cfg cfg) (new_entries before l).
 Definition tmp_ok (cfg : bytes) (before : list bytes) (during : list (list bytes)) (after : list bytes) : bool :=
   forallb (during_ok' cfg before) during && same_set before after.
 (* files the process holds open under the scratch root at a snapshot (also already unlinked ones, which no listing
    shows): each must live under the configured directory *)
-Definition under_cfg (cfg p : bytes) : bool := match strip_prefix (cfg ++ [47]) p with Some _ => true | None => false end.
 Definition tmp_open_ok (cfg : bytes) (opens : list (list bytes)) : bool := forallb (forallb (under_cfg cfg)) opens.
